@@ -128,7 +128,13 @@ func (w *z8World) checkBlobs(fail func(clause, msg string)) {
 		if present {
 			got, _ := gos.ReadFile(file)
 			if !bytes.Equal(got, data) {
-				fail("wrong-content", fmt.Sprintf("blob %s is present with its size %d but holds %x instead of %x", n, len(data), got, data))
+				clip := func(b []byte) []byte {
+					if len(b) > 24 {
+						return b[:24]
+					}
+					return b
+				}
+				fail("wrong-content", fmt.Sprintf("blob %s is present with its size %d but holds %x... instead of %x...", n, len(data), clip(got), clip(data)))
 			}
 		}
 		if w.stored[n] && len(data) > 0 && !present {
@@ -279,6 +285,8 @@ var z8Blobs = map[string][]byte{
 	"A": z8Data(5, 1),
 	"B": z8Data(9, 2),
 	"M": []byte(`{"layers":[]}`),
+	// larger than the copy buffer of io.Copy (32 KiB): stored in several writes even from a source that delivers all it is asked for
+	"L": z8Data(70000, 3),
 }
 
 const z8Name1 = "registry.example/lib/model:tag"
@@ -445,6 +453,10 @@ func z8Scenarios(thorough bool) []z8Scenario {
 		}
 	}
 	rec(nil)
+	big := z8Source{Kind: "good", Chunk: 1 << 20}
+	l = append(l, z8Scenario{Kind: "crash", Crash: true, Threads: [][]z8Op{{{Kind: "put", Blob: "L", Src: big}}}})
+	l = append(l, z8Scenario{Kind: "crash", Crash: true, Threads: [][]z8Op{{{Kind: "import", Blob: "L", Src: big}}}})
+	l = append(l, z8Scenario{Kind: "concurrent", Threads: [][]z8Op{{{Kind: "put", Blob: "L", Src: big}}, {{Kind: "put", Blob: "L", Src: big}}}})
 	// concurrent writers of the same blob
 	srcs := []z8Source{good, {Kind: "flip", K: 0, Chunk: 2}, {Kind: "flip", K: 4, Chunk: 2}, {Kind: "short", K: 2, Chunk: 2}, {Kind: "error", K: 2, Chunk: 2}, {Kind: "long", K: 1, Chunk: 2}}
 	for _, s2 := range srcs {
@@ -573,13 +585,17 @@ func ZZVerifC08() {
 	for i := range scs {
 		items = append(items, fmt.Sprintf("S %d", i))
 	}
-	items = append(items, "SRC 0", "SRC 1", "SRC 2", "SRC 3")
+	items = append(items, "SRC 0", "SRC 1", "SRC 2", "SRC 3", "NAMES 0")
 	r.Fanout(items, evid.FanoutOpts{Env: []string{"GOMAXPROCS=2"}, MemLimitMB: 4096}, func(item string, sub *evid.Run) {
 		var kind string
 		var idx int
 		fmt.Sscan(item, &kind, &idx)
 		if kind == "SRC" {
 			z8Sources(sub, idx, thorough)
+			return
+		}
+		if kind == "NAMES" {
+			z8Names(sub, thorough)
 			return
 		}
 		sc := scs[idx]
@@ -624,10 +640,95 @@ func ZZVerifC08() {
 			sub.NotExhaustive("time budget reached in scenario " + fmt.Sprint(sc))
 		}
 	})
-	r.Rule("sources: every blob size x every reader misbehaviour (short/long by k, flipped byte at each index, error after k bytes, wrong declared size) x read chunking, through Put and through every order / abort point / bad chunk of a 3-chunk Chunker write; crash: every history of the operation alphabet up to the stated depth x every crash point (before each mutating FS call and after each proper prefix of each write); concurrent: all interleavings at FS-call granularity of 2-3 writers of one blob within the preemption bound, also combined with one crash. Oracle on every state/image: present-with-right-size => right content, acknowledged store stays retrievable, Link only to a stored blob, Resolve == digest of the linked bytes and retrievable. Non-trivial = distinct executions that ended in a crash image or ran concurrent writers.")
+	r.Rule("sources: every blob size x every reader misbehaviour (short/long by k, flipped byte at each index, error after k bytes, wrong declared size) x read chunking, through Put and through every order / abort point / bad chunk of a 3-chunk Chunker write; crash: every history of the operation alphabet up to the stated depth x every crash point (before each mutating FS call and after each proper prefix of each write); concurrent: all interleavings at FS-call granularity of 2-3 writers of one blob within the preemption bound, also combined with one crash. Oracle on every state/image: present-with-right-size => right content, acknowledged store stays retrievable, Link only to a stored blob, Resolve == digest of the linked bytes and retrievable. names: every history of up to 3 (thorough 4) Link / Unlink operations over six names that differ in the letter case of one part or in the model, against a reference table (name up to case -> bytes last linked); after every operation every spelling resolves to what the table says. Non-trivial = distinct executions that ended in a crash image or ran concurrent writers, and name histories that leave two names linked.")
 	r.Assume("a crash is process death: what was written stays written (no page-cache loss is modelled)", "time stamps (Chtimes) are not part of the property")
 	r.Extra("bounds", map[string]any{"scenarios": len(scs), "crash_history_depth": map[bool]int{false: 2, true: 3}[thorough]})
 	r.Finish()
+}
+
+// z8Names: every history of up to depth link / unlink operations over names that differ in the letter case of one
+// part (host, namespace, model, tag) or in the model, against a reference table "name up to case -> blob"; after every
+// operation every spelling of every name must resolve to what the table says (or to nothing).
+func z8Names(sub *evid.Run, thorough bool) {
+	dir := filepath.Join(z8Root, "names")
+	names := []string{"H.example/n/m:t", "h.example/n/x:t", "H.example/n/x:t", "h.example/n/m:t", "h.example/N/m:t", "h.example/n/M:T"}
+	blobs := []string{"M", "M2"}
+	data := map[string][]byte{"M": []byte(`{"layers":[]}`), "M2": []byte(`{"layers":[],"x":1}`)}
+	type op struct {
+		Link bool   `json:"link"`
+		Name string `json:"name"`
+		Blob string `json:"blob,omitempty"`
+	}
+	var ops []op
+	for _, n := range names {
+		for _, b := range blobs {
+			ops = append(ops, op{true, n, b})
+		}
+		ops = append(ops, op{false, n, ""})
+	}
+	depth := 3
+	if thorough {
+		depth = 4
+	}
+	run := func(h []op) {
+		gos.RemoveAll(dir)
+		c, err := Open(dir)
+		if err != nil {
+			sub.Extra("machinery_errors", []string{"C08 names: " + err.Error()})
+			return
+		}
+		for _, b := range blobs {
+			if err := PutBytes(c, z8Digest(data[b]), data[b]); err != nil {
+				sub.Extra("machinery_errors", []string{"C08 names: " + err.Error()})
+				return
+			}
+		}
+		table := map[string]string{}
+		for i, o := range h {
+			if o.Link {
+				if err := c.Link(o.Name, z8Digest(data[o.Blob])); err == nil {
+					table[strings.ToLower(o.Name)] = o.Blob
+				}
+			} else if _, err := c.Unlink(o.Name); err == nil {
+				delete(table, strings.ToLower(o.Name))
+			}
+			for _, n := range names {
+				want, linked := table[strings.ToLower(n)]
+				d, err := c.Resolve(n)
+				js, _ := json.Marshal(h[:i+1])
+				switch {
+				case linked && err != nil:
+					sub.Violation("C08/names/linked-name-does-not-resolve", fmt.Sprintf("after %s the name %s is linked to %s (under some spelling) but Resolve fails: %v", js, n, want, err), h[:i+1])
+					return
+				case linked && d != z8Digest(data[want]):
+					sub.Violation("C08/names/resolves-to-other-bytes", fmt.Sprintf("after %s Resolve(%s) = %v, the bytes last linked under this name (up to case) are %s = %v", js, n, d, want, z8Digest(data[want])), h[:i+1])
+					return
+				case !linked && err == nil:
+					sub.Violation("C08/names/unlinked-name-resolves", fmt.Sprintf("after %s Resolve(%s) = %v although the name is not linked", js, n, d), h[:i+1])
+					return
+				}
+			}
+		}
+		sub.Eval()
+		if len(table) >= 2 {
+			js, _ := json.Marshal(h)
+			sub.Distinct("nontrivial", string(js))
+		}
+	}
+	var rec func(h []op)
+	rec = func(h []op) {
+		if len(h) > 0 {
+			run(h)
+		}
+		if len(h) == depth {
+			return
+		}
+		for _, o := range ops {
+			rec(append(h, o))
+		}
+	}
+	rec(nil)
+	gos.RemoveAll(dir)
 }
 
 func z8Sources(sub *evid.Run, shard int, thorough bool) {
